@@ -70,6 +70,13 @@ impl Observer for Obs {
                 self.ended[m] = true;
             }
         }
+        // also from the step log: a live machine that drew the end state as its transition target has ended,
+        // whatever the implementation recorded as its current state
+        for s in c.steps {
+            if s.live && s.target == Some(STATE_END) && s.machine < self.ended.len() {
+                self.ended[s.machine] = true;
+            }
+        }
         if c.before.machines.iter().any(|x| x.0 == STATE_END) {
             stats.bump("calls_with_an_ended_machine");
         }
@@ -101,6 +108,7 @@ pub fn plans(ctx: &WorkerCtx) -> Vec<Plan> {
     v.push(Plan { name: "P-BIG: heavy-tailed / huge timeouts and durations, extreme RNG words".into(), cfgs: fam::singles(&big, &[(0.0, 0.0)]), alpha_for: af(false), opts: Opts { depth: if q { 2 } else { 3 }, n32: 4, n64: 4, ..base.clone() }, walk: None });
     v.push(Plan { name: "P-BIG Binomial with a start above one day (central RNG words)".into(), cfgs: fam::singles(&fam::p_big_binomial(), &[(0.0, 0.0)]), alpha_for: af(false), opts: Opts { depth: 2, n32: 2, m64_words: Some(vec![0xAAAA_AAAA_AAAA_AAAA, 0x5555_5555_5555_5555]), ..base.clone() }, walk: None });
     v.push(Plan { name: "one machine".into(), cfgs: fam::singles(&lib, &fr[..1]), alpha_for: af(false), opts: Opts { depth: if q { 3 } else { 5 }, ..base.clone() }, walk: None });
+    v.push(Plan { name: "one machine, batches of 0..2 events + long batches, two calls deep (an end inside a batch is final)".into(), cfgs: fam::singles(&lib, &fr[..1]).into_iter().step_by(if q { 2 } else { 1 }).collect(), alpha_for: af(true), opts: Opts { depth: if q { 2 } else { 3 }, ..base.clone() }, walk: None });
     v.push(Plan { name: "two machines, batches of 0..2 events + long batches".into(), cfgs: fam::pairs_strided(&lib, 31, 7, &fr).into_iter().step_by(if q { 3 } else { 1 }).collect(), alpha_for: af(true), opts: Opts { depth: if q { 1 } else { 2 }, ..base.clone() }, walk: None });
     v.push(Plan { name: "two machines, singles, deeper".into(), cfgs: fam::pairs_strided(&lib, 17, 5, &fr), alpha_for: af(false), opts: Opts { depth: if q { 2 } else { 4 }, ..base.clone() }, walk: None });
     v.push(Plan { name: "all ordered pairs of signal probes (a machine ends, another one signals later)".into(), cfgs: fam::all_pairs(&fam::p_sig(), &fam::p_sig(), &fr[..1]), alpha_for: af(false), opts: Opts { depth: if q { 4 } else { 5 }, ..base.clone() }, walk: None });
